@@ -96,6 +96,17 @@ CHECKS.update({
    SVM + " Hook H2 is trusted for per-step rate, bounded target and skip flag. Tick spacing 64 and 4 constant sets at instruction level; the wide constant/variable quantifier is carried by the function-level walks.", "DESIGN.md §3 C14"),
 })
 
+CHECKS.update({
+ "C17": (A, "model_checking",
+   "explicit-state search over three pools sharing mints; in every state every two-hop variant (routes x modes x amounts x limits x v1/v2, malformed variants) is executed and compared with the two single swaps executed on a copy; thresholds realised-1/0/+1",
+   "Every two-hop over every reachable pool-pair state within the depth bound leaves a ledger byte-identical to leg one followed by leg two (pools, tick arrays, oracles, vaults, trader accounts, events) and fails exactly when a leg fails alone, the intermediate amounts differ, the pools coincide or share no mint, or the threshold is violated; SPL, Token-2022 and transfer-fee-on-the-intermediate worlds; adaptive-fee pools on a route.",
+   SVM + " Quick tier explores depth 1 from two roots; deeper prefixes in the thorough tier (wall-capped under load, reported).", "DESIGN.md §3 C17"),
+ "C20": (A, "model_checking",
+   "differential inside an explicit-state search: in every state a 60-swap alphabet is executed on the real program and quoted by the Rust core SDK on facades decoded from the same bytes (static, adaptive-fee and transfer-fee pools); function-level enumeration: all ticks both ways, amount/price/fee helpers and liquidity quotes over boundary alphabets; ethnum shim self-check vs num-bigint",
+   "Whenever the program's swap succeeds the SDK returns identical in/out/fee; where it refuses, the SDK returns a number only for partial exact-out fills (running off the arrays never produced an SDK number); conversions equal on all 887273 ticks and boundary prices; helpers equal or SDK errors where the program rejects as overflowing; slippage bounds on the safe side. Two recorded findings (quote before trade-enable time; exact-in token_in over a transfer-fee mint) are listed in known_findings.json; two defects were repaired (fix: commits).",
+   SVM + " rust-sdk/core is built against a U256 shim (ethnum is not available offline) that is itself checked exhaustively against num-bigint on a value alphabet before use. TypeScript/WASM target not run (same Rust source).", "DESIGN.md §3 C20"),
+})
+
 NOT_APPLICABLE = {
 }
 PENDING_REASON = "check not built yet (build in progress; see DESIGN.md §8)"
